@@ -3,7 +3,7 @@
    10^decimals rounded the same way, truncation; bigIntToStr by digit-string splitting). *)
 From Coq Require Import List NArith ZArith Lia.
 From V.Base Require Import Hex.
-From V.C18 Require Import Model Proofs Proofs2.
+From V.C18 Require Import Model Proofs Proofs2 Ledger LedgerProofs.
 Import ListNotations.
 Local Open Scope Z_scope.
 
@@ -114,6 +114,54 @@ Proof.
   split; [split; [lia | reflexivity]|]. vm_compute. discriminate.
 Qed.
 Print Assumptions C18_min_precision.
+
+(* Decimal exponent forms ("1e5", "1.5E-3"; big.ParseFloat accepts them and so does StrToBigInt): whenever
+   the scan is M * 10^(ex-k) with |ex - k| <= 27 the result is exactly that value in dd-decimal units,
+   truncated toward zero -- so "1e5" is 100000 tokens, and an exponent form denoting a number with at most
+   18 fractional digits yields exactly the integer it denotes.  (Binary exponents 1p3, Inf, |ex-k| > 27 and
+   exponents of more than 6 digits are modelled / correspondence-checked only.) *)
+Theorem C18_exponent_value : forall s neg M k ex dd,
+  s <> [] -> parse_number s = Ok (NFin neg M k 10 ex) ->
+  0 < M -> -27 <= ex - k <= 27 -> 0 <= dd ->
+  M * 10 ^ Z.max 0 (ex - k) * 10 ^ dd * (2 * 2 ^ 511 + 1) < 2 ^ 511 * 2 ^ 511 ->
+  str_to_bigint_d s dd =
+  Ok (let t := M * 10 ^ Z.max 0 (ex - k) * 10 ^ dd / 10 ^ Z.max 0 (k - ex) in if neg then - t else t).
+Proof. exact exponent_value. Qed.
+Print Assumptions C18_exponent_value.
+
+(* ---- the account database's ERC20-bound coins (Ledger.v: accountdb_eth.go / accountdb_tuntun.go) ---- *)
+
+(* The binding record (contract, position, decimal count) is read back as it was written, for every
+   uint64 position and decimal count -- in particular a decimal count of 0 stays 0. *)
+Theorem C18_binding_roundtrip : forall b, 0 <= b_position b < 2 ^ 64 -> 0 <= b_decimal b < 2 ^ 64 ->
+  let '(c, p, d) := encode_binding b in decode_binding c p d = b.
+Proof. exact binding_roundtrip. Qed.
+Print Assumptions C18_binding_roundtrip.
+
+(* With 18 decimals the bound coin's slot IS the ledger amount: Get/Set/Add/Sub re-scale nothing. *)
+Theorem C18_ledger_identity_at_18 : forall slot n, 0 <= slot < 2 ^ 510 -> 0 <= n < 2 ^ 510 -> slot + n < 2 ^ 510 ->
+  ft_step 18 slot OpGet 0 = Ok (slot, slot, true) /\
+  ft_step 18 slot OpSet n = Ok (n, 0, true) /\
+  ft_step 18 slot OpAdd n = Ok (slot + n, 0, true) /\
+  ft_step 18 slot OpSub n = (if slot <? n then Ok (slot, slot, false) else Ok (slot - n, slot - n, true)) /\
+  ledger_view 18 slot = Ok slot.
+Proof. exact ops_at_18. Qed.
+Print Assumptions C18_ledger_identity_at_18.
+
+(* Every decimal count 0..18: SetFT stores the amount divided by 10^(18-d) (truncated) and the ledger then
+   shows the amount rounded down to a multiple of 10^(18-d); GetFT followed by SetFT of what was read
+   leaves the slot unchanged. *)
+Theorem C18_ledger_set_then_view : forall d slot n, 0 <= d <= 18 -> 0 <= n < 2 ^ 450 ->
+  ft_step d slot OpSet n = Ok (n / 10 ^ (18 - d), 0, true) /\
+  ledger_view d (n / 10 ^ (18 - d)) = Ok (n - n mod 10 ^ (18 - d)).
+Proof. exact set_then_view. Qed.
+Print Assumptions C18_ledger_set_then_view.
+
+Theorem C18_ledger_get_then_set : forall d slot' m, 0 <= d <= 18 -> 0 <= m -> m * 10 ^ (18 - d) < 2 ^ 450 ->
+  ft_step d m OpGet 0 = Ok (m, m * 10 ^ (18 - d), true) /\
+  ft_step d slot' OpSet (m * 10 ^ (18 - d)) = Ok (m, 0, true).
+Proof. exact get_then_set. Qed.
+Print Assumptions C18_ledger_get_then_set.
 
 (* The error bound of one rounding that everything rests on: the away-from-zero rounding of n/d at
    precision p lies in [n/d, n/d * (1 + 2^(1-p))]. *)
